@@ -534,3 +534,53 @@ Example C13_link_set_rdpe_concrete :    (* 0.75 * 2^65 = 3 * 2^127 in three limb
   mpf_set_rdpe 3 (DFin false (3 * 2 ^ 51) (-53), 65) = Ok (mkmpf 3 3 2 (3 * 2 ^ 127)) /\
   mpf_set_2dl_fixed 2 (DFin false (2 ^ 52) (-53)) LMIN = Ok (mkmpf 2 2 (- 2 ^ 57) (2 ^ 127)).
 Proof. split; vm_compute; reflexivity. Qed.
+
+(* ------------------------------------------------------------------ the complex layer of link.c: component by component, real part first.
+   mpc_get_cdpe is two calls of mpf_get_rdpe (so C13_link_get_rdpe_truncation / _zero apply to each component; both source components
+   are written and restored), mpc_set_cdpe two calls of mpf_set_rdpe (exact), mpc_get_cplx two calls of mpf_get_d
+   (C13_link_get_d_whole_range per component), mpc_set_cplx two calls of mpf_set_d (exact for every finite double). *)
+Theorem C13_link_get_cdpe_components :
+  forall c : mpc, wf_mpf (fst c) = true -> wf_mpf (snd c) = true ->
+    - 2 ^ 57 < m_exp (fst c) < 2 ^ 57 -> - 2 ^ 57 < m_exp (snd c) < 2 ^ 57 ->
+  exists r1 r2,
+    mpc_get_cdpe c = Ok ((r1, r2), c, [0; m_exp (fst c); 0; m_exp (snd c)]) /\
+    mpf_get_rdpe (fst c) = Ok (r1, fst c, [0; m_exp (fst c)]) /\
+    mpf_get_rdpe (snd c) = Ok (r2, snd c, [0; m_exp (snd c)]).
+Proof. exact get_cdpe_components. Qed.
+Print Assumptions C13_link_get_cdpe_components.
+
+Theorem C13_link_set_cdpe_exact :
+  forall prec s1 m1 e1 l1 s2 m2 e2 l2,
+  2 <= prec < 2 ^ 31 -> 0 < m1 < 2 ^ 53 -> LMIN < l1 <= LMAX -> 0 < m2 < 2 ^ 53 -> LMIN < l2 <= LMAX ->
+  exists f1 f2, mpc_set_cdpe prec ((DFin s1 m1 e1, l1), (DFin s2 m2 e2, l2)) = Ok (f1, f2) /\
+    (wf_mpf f1 = true /\ m_size f1 <> 0 /\ m_neg f1 = s1 /\ m_prec f1 = prec /\
+     exists t, 0 <= t /\ m_d f1 = m1 * 2 ^ t /\ 64 * (m_exp f1 - m_n f1) = e1 + l1 - t) /\
+    (wf_mpf f2 = true /\ m_size f2 <> 0 /\ m_neg f2 = s2 /\ m_prec f2 = prec /\
+     exists t, 0 <= t /\ m_d f2 = m2 * 2 ^ t /\ 64 * (m_exp f2 - m_n f2) = e2 + l2 - t).
+Proof. exact set_cdpe_exact. Qed.
+Print Assumptions C13_link_set_cdpe_exact.
+
+Theorem C13_link_set_cplx_exact :
+  forall prec s1 m1 e1 s2 m2 e2, 2 <= prec < 2 ^ 31 -> 0 < m1 < 2 ^ 53 -> 0 < m2 < 2 ^ 53 ->
+  exists f1 f2, mpc_set_cplx prec (DFin s1 m1 e1, DFin s2 m2 e2) = Ok (f1, f2) /\
+    (wf_mpf f1 = true /\ m_size f1 <> 0 /\ m_neg f1 = s1 /\ m_prec f1 = prec /\
+     exists t, 0 <= t /\ m_d f1 = m1 * 2 ^ t /\ 64 * (m_exp f1 - m_n f1) = e1 + 0 - t) /\
+    (wf_mpf f2 = true /\ m_size f2 <> 0 /\ m_neg f2 = s2 /\ m_prec f2 = prec /\
+     exists t, 0 <= t /\ m_d f2 = m2 * 2 ^ t /\ 64 * (m_exp f2 - m_n f2) = e2 + 0 - t).
+Proof. exact set_cplx_exact. Qed.
+Print Assumptions C13_link_set_cplx_exact.
+
+Theorem C13_link_get_cplx_components :
+  forall c : mpc, wf_mpf (fst c) = true -> wf_mpf (snd c) = true -> m_size (fst c) <> 0 -> m_size (snd c) <> 0 ->
+    in_long ((m_exp (fst c) - m_n (fst c)) * 64) = true -> in_long ((m_exp (snd c) - m_n (snd c)) * 64) = true ->
+  exists d1 d2, mpc_get_cplx c = Ok (d1, d2) /\ mpf_get_d (fst c) = Ok d1 /\ mpf_get_d (snd c) = Ok d2.
+Proof.
+  intros c W1 W2 N1 N2 L1 L2. destruct (get_cplx_components c W1 W2 N1 N2 L1 L2) as (d1 & d2 & A & B & C & _).
+  exists d1, d2. repeat split; assumption.
+Qed.
+Print Assumptions C13_link_get_cplx_components.
+
+Example C13_link_cdpe_concrete :
+  mpc_get_cdpe (f_three, mkmpf 2 (-1) 0 (2 ^ 63)) =
+    Ok ((DFin false (3 * 2 ^ 51) (-53), 66, (DFin true (2 ^ 52) (-53), 0)), (f_three, mkmpf 2 (-1) 0 (2 ^ 63)), [0; 2; 0; 0]).
+Proof. vm_compute. reflexivity. Qed.
